@@ -15,9 +15,10 @@ import re
 import sys
 
 sys.path.insert(0, os.path.dirname(os.path.abspath(__file__)))
+VERIF_ROOT = os.path.dirname(os.path.dirname(os.path.abspath(__file__)))
 from rustsrc import Source, Item, ExtractError, mask, match_close, loop_headers, split_args  # noqa: E402
 
-SECTION_KEYS = ('props', 'requires', 'ensures', 'decreases', 'invariant', 'loopdec', 'proof', 'returns', 'attr',
+SECTION_KEYS = ('proof_begin', 'assumed_from', 'props', 'requires', 'ensures', 'decreases', 'invariant', 'loopdec', 'proof', 'returns', 'attr',
                 'derive+', 'nested', 'specialize', 'novac', 'external_body', 'rename', 'recommends', 'loopiter',
                 'opens_invariants', 'no_unwind')
 
@@ -32,6 +33,7 @@ class Contract:
         self.loopdec = {}       # loop ordinal -> list of clauses
         self.loopiter = {}      # loop ordinal -> name for `for x in NAME: expr`
         self.proof = None       # text
+        self.proof_begin = None
         self.returns = None
         self.attrs = []
         self.derive_add = []
@@ -41,6 +43,7 @@ class Contract:
         self.external_body = False
         self.rename = None
         self.no_unwind = False
+        self.assumed_from = None
         self.props = None       # property ids this item's semantic clauses serve (None: unit default)
 
     def n_clauses(self):
@@ -72,6 +75,7 @@ class Unit:
         self.specs = []       # spec files (relative to /verif)
         self.verbatim = []    # raw text blocks
         self.uses = []
+        self.uses_inner = []
         self.broadcasts = []
         self.props = []         # default property tags
         self.encprops = []      # property tags of encodability clauses
@@ -80,9 +84,28 @@ class Unit:
         self.expected_fail = []  # fn ids expected to fail (canary only; known findings are handled by the runner)
         self.parse()
 
+    def load_lines(self, path, assumed, home=None):
+        """Read a contract file, expanding `@include file [assumed]` in place. Lines of an assumed include are
+        prefixed so that every @item in them is emitted external_body (contract assumed here, proved elsewhere)."""
+        with open(path) as f:
+            raw = f.read().split('\n')
+        out = []
+        for ln in raw:
+            st = ln.strip()
+            if st.startswith('@include'):
+                parts = st.split()
+                sub = os.path.join(VERIF_ROOT, parts[1])
+                sub_assumed = assumed or (len(parts) > 2 and parts[2] == 'assumed')
+                out += self.load_lines(sub, sub_assumed, home=parts[1])
+            elif st.startswith('@item') and assumed:
+                out.append(ln)
+                out.append('  assumed_from %s' % (home or path))
+            else:
+                out.append(ln)
+        return out
+
     def parse(self):
-        with open(self.path) as f:
-            lines = f.read().split('\n')
+        lines = self.load_lines(self.path, False)
         i = 0
         cur = None          # current ItemSpec
         cstack = []         # contract stack for nested
@@ -109,6 +132,9 @@ class Unit:
             c = target()
             if key == 'proof':
                 c.proof = (c.proof + '\n' if c.proof else '') + text
+                return
+            if key == 'proof_begin':
+                c.proof_begin = (c.proof_begin + '\n' if c.proof_begin else '') + text
                 return
             if not text.rstrip().endswith(','):
                 text = text.rstrip() + ','
@@ -150,6 +176,8 @@ class Unit:
                     self.defines[parts[1]] = line.split(None, 2)[2]
                 elif d == '@broadcast':
                     self.broadcasts.append(parts[1])
+                elif d == '@use_inner':
+                    self.uses_inner.append(line[len('@use_inner'):].strip())
                 elif d == '@use':
                     self.uses.append(line[len('@use'):].strip())
                 elif d == '@verbatim':
@@ -173,15 +201,15 @@ class Unit:
                 continue
             if cur is None:
                 continue
-            in_proof = section is not None and section[0] == 'proof'
+            in_proof = section is not None and section[0] in ('proof', 'proof_begin')
             if not line or ((line == '#' or line.startswith('# ')) and not in_proof):
                 if in_proof and buf is not None:
                     buf.append(raw)
                 continue
             first = line.split()[0]
             indent = len(raw) - len(raw.lstrip())
-            is_key = first in SECTION_KEYS and (section is None or section[0] != 'proof' or indent <= 2)
-            if is_key and (clause_indent is None or indent < clause_indent or section is None or section[0] == 'proof'):
+            is_key = first in SECTION_KEYS and (section is None or section[0] not in ('proof', 'proof_begin') or indent <= 2)
+            if is_key and (clause_indent is None or indent < clause_indent or section is None or section[0] in ('proof', 'proof_begin')):
                 flush_clause()
                 rest = line[len(first):].strip()
                 c = target()
@@ -191,8 +219,8 @@ class Unit:
                 elif first in ('invariant', 'loopdec'):
                     section = (first, int(rest))
                     clause_indent = None
-                elif first == 'proof':
-                    section = ('proof', None)
+                elif first in ('proof', 'proof_begin'):
+                    section = (first, None)
                     clause_indent = None
                     buf = []
                 elif first == 'returns':
@@ -200,6 +228,9 @@ class Unit:
                     section = None
                 elif first == 'props':
                     c.props = rest.split()
+                    section = None
+                elif first == 'assumed_from':
+                    c.assumed_from = rest
                     section = None
                 elif first == 'attr':
                     c.attrs.append(rest)
@@ -240,7 +271,7 @@ class Unit:
                 continue
             if section is None:
                 raise ExtractError('%s:%d: text outside a section: %s' % (self.path, i, line))
-            if section[0] == 'proof':
+            if section[0] in ('proof', 'proof_begin'):
                 buf.append(raw)
                 continue
             if clause_indent is None:
@@ -389,6 +420,9 @@ class Emitter:
         for k in list(contract.invariants) + list(contract.loopdec) + list(contract.loopiter):
             if k > len(own_loops):
                 raise ExtractError('%s: contract names loop %d but the function has %d loops (anchor lost)' % (fnid, k, len(own_loops)))
+        if contract.proof_begin:
+            ptxt = '\n' + mark('    proof {\n' + contract.proof_begin + '\n    }', fnid + '::proof')
+            edits.append((1, ptxt))
         if contract.proof:
             endpos = len(body.rstrip()) - 1
             ptxt = mark('    proof {\n' + contract.proof + '\n    }', fnid + '::proof') + '\n'
@@ -398,6 +432,8 @@ class Emitter:
             nc = contract.nested.get(nm, Contract())
             if nc.props is None:
                 nc.props = contract.props
+            if contract.assumed_from:
+                nc.assumed_from = contract.assumed_from
             sub = self.render_fn(body[a:b], nc, fnid + '/' + nm, top=False)
             self.register_fn(fnid + '/' + nm, nc, None, None)
             edits.append((a, ('REPLACE', b, sub)))
@@ -415,6 +451,13 @@ class Emitter:
         return out
 
     def register_fn(self, fnid, contract, srcpath, line):
+        if contract.assumed_from and not contract.external_body:
+            contract.external_body = True
+            self.assumed.append('contract of %s assumed in this unit (external_body); it is proved in the unit that includes %s without `assumed`' % (fnid, contract.assumed_from))
+            self.functions.append({'id': fnid, 'src': srcpath, 'line': line, 'requires': len(contract.requires),
+                                   'ensures': len(contract.ensures), 'invariants': 0, 'decreases': 0, 'external_body': True,
+                                   'novac': True, 'props': [], 'ensures_text': [], 'requires_text': [], 'assumed_from': contract.assumed_from})
+            return
         self.functions.append({
             'id': fnid, 'src': srcpath, 'line': line,
             'requires': len(contract.requires), 'ensures': len(contract.ensures),
@@ -443,6 +486,9 @@ class Emitter:
                 if n != 1:
                     raise ExtractError('%s: derive+ but no derive attribute' % spec.name)
                 self.rules.add('R3')
+            if spec.kind == 'const' and re.search(r':\s*&str\b', text):
+                text = re.sub(r':\s*&str\b', ": &'static str", text, count=1)
+                self.rules.add('R8')
             if c.attrs:
                 text = '\n'.join(c.attrs) + '\n' + text
             return '// <<< %s %s  (%s:%d)\n%s\n' % (spec.kind, spec.name, rel, it.line_of(it.kw), text)
@@ -559,6 +605,8 @@ class Emitter:
             with open(os.path.join(self.verif_root, sp)) as f:
                 parts.append('// ======== %s ========\n%s\n' % (sp, f.read()))
         parts.append('} // mod spec\nuse spec::*;\n')
+        for x in u.uses_inner:
+            parts.append('use %s;\n' % x.rstrip(';'))
         if u.broadcasts:
             parts.append('broadcast use {%s};\n' % ', '.join(u.broadcasts))
         for vb in u.verbatim:
